@@ -87,7 +87,21 @@ def compare(a_lines, b_lines, views=('obs', 'shape', 'memo', 'ident', 'fresh'), 
             al, bl = ao.get(tag, []), bo.get(tag, [])
             if tag == 'I':
                 al, bl = canon_ident(al), canon_ident(bl)
-            if tag in 'OSMI':
+            if tag == 'I':
+                # identity classes relate registers to each other: the view as a whole differs or not, and a difference
+                # counts at the operation after which it first appears
+                was_equal = last_equal.get(('I', '*'), True)
+                last_equal[('I', '*')] = (al == bl)
+                if al != bl and was_equal and view not in diffs:
+                    k = next((j for j in range(min(len(al), len(bl))) if al[j] != bl[j]), min(len(al), len(bl)))
+                    x = al[k] if k < len(al) else '<missing>'
+                    y = bl[k] if k < len(bl) else '<missing>'
+                    if relevant is None or relevant(view, n, x, y, last_equal):
+                        diffs[view] = (n, x, y)
+                    else:
+                        diffs.setdefault('drift:' + view, (n, x, y))
+                continue
+            if tag in 'OSM':
                 # state lines (one per register): a difference counts where it is INTRODUCED, i.e. the same
                 # register's line agreed after the previous operation; afterwards it is inherited, not new
                 da = {l.split(' ', 2)[1]: l for l in al}
